@@ -56,7 +56,7 @@ import (
 var rfcBehaviours = []string{"valid", "mods", "dwrap", "wnonce", "nononce", "wimprint", "walg", "rej2", "rej3", "rejtok", "badsig",
 	"rogue", "http404", "http500", "reset", "hang", "cancel", "garbage", "trailing", "notoken", "empty", "badtst"}
 
-var legacyBehaviours = []string{"valid", "wimprint", "badsig", "rogue", "notime", "http500", "reset", "hang", "cancel",
+var legacyBehaviours = []string{"valid", "wimprint", "badsig", "transplant", "rogue", "notime", "http500", "reset", "hang", "cancel",
 	"garbage", "b64junk"}
 
 // the smaller alphabet used for the exhaustive enumeration (one representative per decision branch)
@@ -370,7 +370,7 @@ func (t *tsaServer) handle(w http.ResponseWriter, r *http.Request) {
 	waitGone := func() {
 		select {
 		case <-r.Context().Done():
-		case <-time.After(4 * time.Second):
+		case <-time.After(60 * time.Second): // far beyond the client timeout even on a loaded machine
 		}
 	}
 	switch {
@@ -425,6 +425,12 @@ func (t *tsaServer) handle(w http.ResponseWriter, r *http.Request) {
 			psd = issueLegacy(id, flip(ed), at, false, false)
 		case "badsig":
 			psd = issueLegacy(id, ed, at, false, true)
+		case "transplant":
+			// a genuine token for a different value, its embedded content replaced by the requested one
+			psd = issueLegacy(id, flip(ed), at, false, false)
+			if ci, err := pkcs7.NewContentInfo(pkcs7.OidData, ed); err == nil {
+				psd.Content.ContentInfo = ci
+			}
 		case "rogue":
 			psd = issueLegacy(pki.rogue, ed, at, false, false)
 		case "notime":
